@@ -48,7 +48,7 @@ def correspondence(ctx):
     thorough = ctx.tier == "thorough"
     groups = []
     scripts = []
-    for _ in range(200 if thorough else 20):
+    for case_no in range(200 if thorough else 20):
         m = pipeline.gen_model(r, max_modes=r.choice([2, 3, 4]))
         M = m.modes()
         beta = r.choice([0.7, 2.0, 6.0])
@@ -58,7 +58,10 @@ def correspondence(ctx):
         g = []
         for sy in modes:
             g.append(len(scripts))
-            scripts.append(pipeline.core_script(m, order=order, symm=sy) + obs)
+            # every third model: the custom partitions are set up in the order "declare all objects, prepare afterwards"
+            # (chosen by the case number, no random draw)
+            early = case_no % 3 == 2 and sy.startswith("symm custom")
+            scripts.append(pipeline.core_script(m, order=order, symm=sy, early=early) + obs)
         groups.append(g)
     res = pipeline.run_batch(scripts, "real")
     # each run against the partition-free oracle: any failed oracle of the underlying properties is a C08 problem too
